@@ -42,6 +42,7 @@ type barSpec struct {
 	syncW  int // >0: the marker decorator is width-synchronised with minimum width syncW
 	shut   int // >=0: a shutdown-listening decorator wrapped shut levels deep (-1: none)
 	shutSide int // 0 prepend, 1 append
+	nsp, nsa int // extra width-synchronised decorators on the prepend / append side
 }
 
 const noPrio = -1000000
@@ -67,7 +68,7 @@ func (sc *scenario) header() []string {
 	}
 	out := []string{fmt.Sprintf("case %d %s %d %d %d %d %d %s %d", sc.k, sc.mode, sc.q, sc.width, b2i(sc.pop), b2i(sc.delay), b2i(sc.notifier), fault, sc.perturb)}
 	for i, b := range sc.bars {
-		out = append(out, fmt.Sprintf("bar %d %d %d %d %d %d %d %d %d %d %d", i, b.total, b.prio, b2i(b.rm), b2i(b.noPop), b.after, b.xrows, b2i(b.xrev), b.syncW, b.shut, b.shutSide))
+		out = append(out, fmt.Sprintf("bar %d %d %d %d %d %d %d %d %d %d %d %d %d", i, b.total, b.prio, b2i(b.rm), b2i(b.noPop), b.after, b.xrows, b2i(b.xrev), b.syncW, b.shut, b.shutSide, b.nsp, b.nsa))
 	}
 	return out
 }
@@ -101,6 +102,9 @@ func parseScenarios(path string) ([]*scenario, error) {
 			bsp := barSpec{total: t, prio: atoi(f[3]), rm: f[4] == "1", noPop: f[5] == "1", after: atoi(f[6]), xrows: atoi(f[7]), xrev: f[8] == "1", syncW: atoi(f[9]), shut: -1}
 			if len(f) > 11 {
 				bsp.shut, bsp.shutSide = atoi(f[10]), atoi(f[11])
+			}
+			if len(f) > 13 {
+				bsp.nsp, bsp.nsa = atoi(f[12]), atoi(f[13])
 			}
 			cur.bars = append(cur.bars, bsp)
 		case "s":
@@ -169,6 +173,9 @@ func genScenario(r *rng, k int, tier string) *scenario {
 		b.shut = -1
 		if r.chance(1, 3) {
 			b.shut, b.shutSide = r.intn(5), r.intn(2)
+		}
+		if r.chance(1, 3) {
+			b.nsp, b.nsa = r.intn(3), r.intn(3)
 		}
 		sc.bars = append(sc.bars, b)
 	}
@@ -621,6 +628,39 @@ func execScenario(c *runCtx, sc *scenario, eo *execOpts) ([]string, error) {
 					return nil
 				}), bs.xrev))
 			}
+			pre := []decor.Decorator{marker, deco}
+			var app []decor.Decorator
+			mkSync := func(side string, k int) decor.Decorator {
+				cflags := decor.DSyncWidth
+				if (i+k)%2 == 0 {
+					cflags |= decor.DindentRight
+				}
+				if (i+k)%3 == 0 {
+					cflags |= decor.DextraSpace
+				}
+				var d decor.Decorator = decor.Any(func(s decor.Statistics) string {
+					return fmt.Sprintf("<%d.%s.%d:%s>", i, side, k, strings.Repeat("x", int((s.Current+int64(k))%5)))
+				}, decor.WC{W: (i*3 + k*5) % 13, C: cflags})
+				// wrappers still perform exactly one width exchange per render
+				switch (i + k) % 4 {
+				case 1:
+					d = decor.OnComplete(d, fmt.Sprintf("<%d.%s.%d:done>", i, side, k))
+				case 2:
+					d = decor.OnAbort(decor.Meta(d, func(s string) string { return s }), fmt.Sprintf("<%d.%s.%d:ab>", i, side, k))
+				case 3:
+					d = decor.OnCompleteMeta(d, func(s string) string { return s })
+				}
+				return d
+			}
+			for k := 0; k < bs.nsp; k++ {
+				pre = append(pre, mkSync("p", k))
+			}
+			for k := 0; k < bs.nsa; k++ {
+				app = append(app, mkSync("a", k))
+			}
+			if bs.nsp > 0 || bs.nsa > 0 {
+				bopts = append(bopts, mpb.PrependDecorators(pre...), mpb.AppendDecorators(app...))
+			}
 			if bs.shut >= 0 {
 				cnt := new(int32)
 				shutCounts[i] = cnt
@@ -629,9 +669,9 @@ func execScenario(c *runCtx, sc *scenario, eo *execOpts) ([]string, error) {
 					sd = wrapOne((i+j)%5, sd)
 				}
 				if bs.shutSide == 0 {
-					bopts = append(bopts, mpb.PrependDecorators(marker, deco, sd))
+					bopts = append(bopts, mpb.PrependDecorators(append(pre, sd)...))
 				} else {
-					bopts = append(bopts, mpb.AppendDecorators(sd))
+					bopts = append(bopts, mpb.AppendDecorators(append(app, sd)...))
 				}
 			}
 			var filler mpb.BarFiller = mpb.BarStyle().Build()
